@@ -13,6 +13,7 @@ import (
 	"net/http"
 	"net/url"
 	"os"
+	"sort"
 	"strconv"
 	"strings"
 	"sync/atomic"
@@ -69,6 +70,28 @@ func NewGcsEmu(opts Options) *GcsEmu {
 
 func lockName(bucket string, filename string) string {
 	return bucket + "/" + filename
+}
+
+// runLocked runs f while holding the locks of all the given objects. The locks are taken in
+// sorted order, each once, so that requests which need several of them (a copy reads its source
+// and writes its destination, a compose reads all its sources) cannot deadlock each other.
+func (g *GcsEmu) runLocked(ctx context.Context, names []string, f func(ctx context.Context) error) error {
+	keys := append([]string(nil), names...)
+	sort.Strings(keys)
+	uniq := keys[:0]
+	for i, k := range keys {
+		if i == 0 || k != keys[i-1] {
+			uniq = append(uniq, k)
+		}
+	}
+	var run func(ctx context.Context, i int) error
+	run = func(ctx context.Context, i int) error {
+		if i == len(uniq) {
+			return f(ctx)
+		}
+		return g.locks.Run(ctx, uniq[i], func(ctx context.Context) error { return run(ctx, i+1) })
+	}
+	return run(ctx, 0)
 }
 
 // Register the emulator's HTTP handlers on the given mux.
@@ -211,8 +234,14 @@ func (g *GcsEmu) handleGcsCompose(ctx context.Context, baseUrl HttpBaseUrl, w ht
 			},
 		}
 	}
+	// Lock the destination and every source (reads of an object that is being written must
+	// not see it half done).
+	names := []string{lockName(bucket, dst.filename)}
+	for _, src := range srcs {
+		names = append(names, lockName(bucket, src.filename))
+	}
 	var obj *storage.Object
-	if err := g.locks.Run(ctx, lockName(bucket, dst.filename), func(_ context.Context) error {
+	if err := g.runLocked(ctx, names, func(_ context.Context) error {
 		var err error
 		obj, err = g.finishCompose(baseUrl, bucket, dst, srcs, req.Destination)
 		return err
@@ -436,9 +465,10 @@ func (g *GcsEmu) handleGcsCopy(ctx context.Context, baseUrl HttpBaseUrl, w http.
 	b2 := destParts[0]
 	f2 := destParts[1]
 
-	// Must lock the destination object.
+	// Must lock the destination object, and the source too: reads of an object that is
+	// being written must not see it half done.
 	var obj *storage.Object
-	err := g.locks.Run(ctx, lockName(b2, f2), func(ctx context.Context) error {
+	err := g.runLocked(ctx, []string{lockName(b1, f1), lockName(b2, f2)}, func(ctx context.Context) error {
 		if ok, err := g.store.Copy(b1, f1, b2, f2); err != nil {
 			return err
 		} else if !ok {
